@@ -64,33 +64,27 @@ def rule_m1(ck, prog):
     else:
         ck.analysed(f)
         st = K.site(f, "short-form-end", 0)
-        par = f.params[0]["name"]
-        ifs = [b for b in f.blocks.values() if b.term_kind == "IfStmt" and b.cond is not None and par + "[" in b.cond.src]
-        rets = [n for n in f.nodes.values() if n.k == "ReturnStmt" and n.ch]
-        idx = None
-        if len(ifs) == 1:
-            for x in ifs[0].cond.walk():
-                if x.k == "ArraySubscriptExpr" and x.child(0).strip_all_casts().get("path") == par:
-                    idx = x.child(1).strip_all_casts().get("path")
-        if len(ifs) != 1 or idx is None:
-            ck.anchor_lost("C03-M1", "the per-byte test of patternSeparatorShortPos")
-        else:
-            try:
-                got = byte_set(ifs[0].cond, "%s[%s]" % (par, idx), prog)
-            except CS.CannotEvaluate as ex:
-                got = None
-                ck.undecided("C03-M1", st, K.loc(f, ifs[0].cond), "cannot evaluate: %s" % ex)
-            # the true edge returns the index
-            tb = ifs[0].succs[0]
-            ret_i = tb is not None and any(e.k == "ReturnStmt" and e.ch and e.child(0).strip_all_casts().get("path") == idx for e in tb.elems)
-            if got is not None:
-                if got == LOWER and ret_i:
-                    ck.holds("C03-M1", st, K.loc(f, ifs[0].cond), "stops at the first byte in {a-z} and returns its index")
-                else:
-                    ck.violated("C03-M1", st, K.loc(f, ifs[0].cond),
-                                "the short form of a keyword ends at the first byte in {%s} (returns index: %s); it must end at the "
-                                "first lower-case letter a-z: keywords with digits, '#' or other bytes get a wrong short form"
-                                % (show(got)[:60], ret_i))
+        par, lenp = f.params[0]["name"], f.params[1]["name"]
+        # the function's result on the two-byte keyword (b, 'x') for every byte b - and on (b) alone: the short form ends at the
+        # first lower-case letter, i.e. 0 if b is in a-z (or NUL), otherwise 1 (the 'x' / the end stops it)
+        wrong = []
+        try:
+            for b in range(256):
+                got2 = CS.run_with_strings(f, {lenp: 2}, {par: [b, ord("x")]}, prog)
+                want2 = 0 if (b in LOWER or b == 0) else 1
+                got1 = CS.run_with_strings(f, {lenp: 1}, {par: [b]}, prog)
+                want1 = 0 if (b in LOWER or b == 0) else 1
+                if got2 != want2 or got1 != want1:
+                    wrong.append(b)
+            if wrong:
+                ck.violated("C03-M1", st, K.loc(f),
+                            "the short form of a keyword does not end exactly at its first lower-case letter: for a keyword starting with "
+                            "one of {%s} followed by a lower-case letter the short form has the wrong length (digits, '_' and '#' belong "
+                            "to the short form: `RS232Config`, `CH_Aux#`)" % show(set(wrong))[:60])
+            else:
+                ck.holds("C03-M1", st, K.loc(f), "for all 256 first bytes: the short form ends at the first byte in {a-z} (or at NUL / the length)")
+        except CS.CannotEvaluate as ex:
+            ck.undecided("C03-M1", st, K.loc(f), "cannot evaluate patternSeparatorShortPos: %s" % ex)
     # separators
     for name, want in (("patternSeparatorPos", "?:[]"), ("cmdSeparatorPos", ":?")):
         f = prog.fn(name)
